@@ -313,6 +313,21 @@ theorem step_wf {σ : Type} (S : MarkSet σ) (c : Cfg) (s : HState) (op : HOp) (
   | alloc a e => exact register_wf wf a e hok
   | write a o => exact write_wf wf a o
   | del a => exact remove_wf wf a
+  | assign a b =>
+    simp only [HState.step]
+    split
+    · exact write_wf wf a _
+    · exact wf
+  | copyTo a b =>
+    simp only [HState.step]
+    split
+    · exact register_wf wf a _ hok
+    · exact wf
+  | clear a =>
+    simp only [HState.step]
+    split
+    · exact write_wf wf a _
+    · exact wf
   | setThread t => exact wf
   | setStack ws => exact wf
   | collect => exact sweep_wf S s.heap wf _
@@ -320,7 +335,7 @@ theorem step_wf {σ : Type} (S : MarkSet σ) (c : Cfg) (s : HState) (op : HOp) (
 theorem step_event {σ : Type} (S : MarkSet σ) (c : Cfg) (s : HState) (op : HOp) (ev : Event)
     (he : (s.step S c op).2 = some ev) :
     ev.before = s ∧ ev.pending = (collect S c s.heap s.thread s.stack).2 := by
-  cases op <;> simp only [HState.step] at he <;> cases he
+  cases op <;> simp only [HState.step] at he <;> (try split at he) <;> cases he
   exact ⟨rfl, rfl⟩
 
 theorem run_events {σ : Type} (S : MarkSet σ) (c : Cfg) : ∀ (ops : List HOp) (s : HState), s.heap.WF →
